@@ -374,13 +374,22 @@ impl<const K: u8> Probe<K> {
                 }
             }
             Step::Lookup(kind) => {
+                log(EvKind::OpBegin {
+                    client: 100 + actor,
+                    op: 800 + *kind as usize,
+                    what: OpWhat::Reg(RegOp::FromRegistry, *kind),
+                    actor: None,
+                    via: None,
+                    msg: None,
+                });
                 let addr = if *kind == 0 {
                     AnyAddr::A0(Probe::<0>::from_registry().await)
                 } else {
                     AnyAddr::A1(Probe::<1>::from_registry().await)
                 };
                 let got = addr.identify().await;
-                log(EvKind::Lookup { actor, kind: *kind, got });
+                log(EvKind::Lookup { actor, kind: *kind, got: got.clone() });
+                log(EvKind::OpEnd { client: 100 + actor, op: 800 + *kind as usize, res: OpRes::Reg(RegRes::Got(got)), polls: 0 });
             }
             Step::Panic => std::panic::panic_any(InjectedPanic),
         }
